@@ -33,6 +33,7 @@ ASSUMPTIONS = [
     "allow_negative_balances=True so that the matcher's own guard (not the per-account balance guard, C08) is observed",
     "amounts <= 11 decimals (R1); optional crypto_out_with_fee consistent with amount + fee when present (R4)",
 ]
+RULE += e2e.RULE_SUFFIX
 
 CFG = gen.GenCfg(min_steps=2, max_steps=14, shared_uid_prob=0.05)
 VARIANTS = ["plain", "plain", "overspend", "overspend_refill", "liquidate_later", "liquidate_tie"]
